@@ -85,6 +85,15 @@ def _make_frame(spec, seed):
       val[g] = rng.normal(60.0, 8.0, size=n_dates)
     else:
       val[g] = 42.0
+  # Twin geos: two clean geos of one group report identical values on every
+  # date (tied cells: rows that differ in the geo column only).
+  twins = None
+  if rep % 3 == 1 and n_geos >= 6:
+    free = [g for g in range(n_geos) if group[g] == nm['control'] and
+            g not in {p for p, _ in planted}]
+    if len(free) >= 2:
+      twins = (free[0], free[1])
+      val[free[1]] = val[free[0]]
   n_pre = int(round(n_dates * 0.65))
   n_cool = 2 if n_dates >= 30 else 0
   period = [nm['pre']] * n_pre + [nm['test']] * (n_dates - n_pre - n_cool) + [
@@ -149,6 +158,8 @@ def _make_frame(spec, seed):
           'planted_noisy': [[ids[g], k] for g, k in planted],
           'planted_spikes': [[str(days[d]), grp] for d, grp in spikes],
           'unassigned_geo': with_unassigned, 'dropped_rows': drop_rows,
+          'twin_geos': None if twins is None else [ids[twins[0]],
+                                                   ids[twins[1]]],
           'row_labels': ('default' if rep % 2 == 0 else 'reversed-even'
                          if (rep // 2 + n_geos + noisy) % 2 == 0
                          else 'repeating'),
